@@ -498,6 +498,98 @@ func genExec() (string, error) {
 		})
 	}
 	emit("liveLotteryCalls", "controller/result.go CalculateRewardRecipients: calls of fsm.LotteryWinner on the live state machine", lottery)
+	// ---- lib/crypto/*.go: every write of the process-wide signature cache (SignatureCache.Set, and
+	// ---- calls of the addToCache callback CheckCache hands out) with everything that encloses it
+	var cacheWrites []string
+	cryptoFiles, _ := filepath.Glob(filepath.Join(*repo, "lib", "crypto", "*.go"))
+	sort.Strings(cryptoFiles)
+	for _, fn := range cryptoFiles {
+		if strings.HasSuffix(fn, "_test.go") || strings.Contains(filepath.Base(fn), "verif_hooks") {
+			continue
+		}
+		f, e := g.ParseFile(fn)
+		if e != nil {
+			return "", e
+		}
+		var walkStmts func(list []ast.Stmt, ctx []string)
+		var scan func(n ast.Node, ctx []string)
+		scan = func(n ast.Node, ctx []string) {
+			if n == nil {
+				return
+			}
+			ast.Inspect(n, func(x ast.Node) bool {
+				switch v := x.(type) {
+				case *ast.FuncLit:
+					walkStmts(v.Body.List, append(append([]string{}, ctx...), "func literal"))
+					return false
+				case *ast.CallExpr:
+					if t := g.ExprText(v.Fun); t == "SignatureCache.Set" || t == "addToCache" {
+						cacheWrites = append(cacheWrites, strings.Join(ctx, " / ")+" => "+g.ExprText(v))
+					}
+				}
+				return true
+			})
+		}
+		walkStmts = func(list []ast.Stmt, ctx []string) {
+			with := func(c string) []string { return append(append([]string{}, ctx...), c) }
+			for _, st := range list {
+				switch v := st.(type) {
+				case *ast.IfStmt:
+					cond := g.ExprText(v.Cond)
+					if v.Init != nil {
+						scan(v.Init, ctx)
+						cond = g.StmtText(v.Init) + "; " + cond
+					}
+					scan(v.Cond, ctx)
+					walkStmts(v.Body.List, with("if "+cond))
+					switch e := v.Else.(type) {
+					case *ast.BlockStmt:
+						walkStmts(e.List, with("else of if "+cond))
+					case *ast.IfStmt:
+						walkStmts([]ast.Stmt{e}, with("else of if "+cond))
+					}
+				case *ast.RangeStmt:
+					hd := "for "
+					if v.Key != nil {
+						hd += g.ExprText(v.Key)
+						if v.Value != nil {
+							hd += ", " + g.ExprText(v.Value)
+						}
+						hd += " := "
+					}
+					walkStmts(v.Body.List, with(hd+"range "+g.ExprText(v.X)))
+				case *ast.ForStmt:
+					cond := ""
+					if v.Cond != nil {
+						cond = g.ExprText(v.Cond)
+					}
+					walkStmts(v.Body.List, with("for "+cond))
+				case *ast.BlockStmt:
+					walkStmts(v.List, ctx)
+				case *ast.AssignStmt:
+					for i, r := range v.Rhs {
+						if fl, ok := r.(*ast.FuncLit); ok && i < len(v.Lhs) {
+							walkStmts(fl.Body.List, with("func "+g.ExprText(v.Lhs[i])))
+						} else {
+							scan(r, ctx)
+						}
+					}
+				default:
+					scan(st, ctx)
+				}
+			}
+		}
+		for _, d := range f.AST.Decls {
+			if fd, ok := d.(*ast.FuncDecl); ok && fd.Body != nil {
+				name := fd.Name.Name
+				if fd.Recv != nil && len(fd.Recv.List) == 1 {
+					name = strings.TrimPrefix(g.ExprText(fd.Recv.List[0].Type), "*") + "." + name
+				}
+				walkStmts(fd.Body.List, []string{filepath.Base(fn) + " " + name})
+			}
+		}
+	}
+	emit("signatureCacheWrites", "lib/crypto/*.go: every write of the process-wide SignatureCache (SignatureCache.Set, calls of CheckCache's addToCache callback) with everything enclosing it: file function / func literal / if-conditions / loops => call", cacheWrites)
 	b.WriteString("end Canopy.Gen.Exec\n")
 	return b.String(), nil
 }
